@@ -3,6 +3,7 @@ import CfbVerif.Phys.Api
 import CfbVerif.Phys.Codec
 import CfbVerif.Phys.DifatBack
 import CfbVerif.Phys.EntryBack
+import CfbVerif.Phys.OpenBack
 /-!
 # C02 — write-through persistence: the byte image always reopens to the same state
 
@@ -141,6 +142,109 @@ theorem C02_entry_decoded (b : ByteArray) (r : Row) (start len : Nat) (rest : Li
 theorem C02_unallocated_decoded (b : ByteArray) (rest : List (Nat × Nat)) (m : Raw.Mode) (v4 : Bool) :
     readDirEntry m v4 (pushFields (renderUnallocated b) rest) b.size = .ok unallocEntry :=
   readDirEntry_unallocated b rest m v4
+
+/-! ### the directory stage and the whole of `open` (`Phys/DirBack.lean`, `Phys/DirAccepts.lean`,
+`Phys/DirTable.lean`, `Phys/OpenBack.lean`) -/
+
+/-- **the directory chain loop of `open` returns the writer's directory table, slot by slot**, after
+every history of the store machine, in both modes: `dirLoop` follows the FAT along the directory
+chain of the rendered image — range, repetition and (strict, V4) count checks included — and
+decodes every slot of every directory sector to the entry the renderer was given for it (the blank
+entry for a free slot) -/
+theorem C02_directory_read_back (v4 : Bool) (ops : List GOp) (rows : List Row) (m : Raw.Mode) :
+    let g := grun { p := Phys.create v4, L := fun _ => 0 } ops
+    g.p.fat.size ≤ MAXREG → SlotsWf g.p (slotsOf g.p rows) →
+    dirLoop m (hdrOf g.p) (render g.p rows) g.p.numSectors g.p.fat (g.p.numSectors + 1) g.p.dirStart 1 [] [] =
+      .ok (tableOf g.p rows) := by
+  intro g hfs sw
+  have gs := gs_grun ops { p := Phys.create v4, L := fun _ => 0 }
+  have hb : g.p.fat.size ≤ MAXREG + 1 := Nat.le_succ_of_le hfs
+  have j := noLeak_reachable v4 ops hb
+  have mk := (mk_grun_reachable v4 ops hb).1
+  have hn : g.p.numSectors ≤ MAXREG := by rw [← j.inv.fat.size]; exact hfs
+  exact dirLoop_readback rows j mk (gs.ss (ss_create v4)) sw hn m (hdrOf g.p) rfl (by
+    intro hv; simp only [hdrOf] at hv ⊢; rw [if_pos hv])
+
+/-- **`Directory::validate` accepts every table that represents a directory tree** (`DfsOk`: entries
+at the nodes' slots with the nodes' names, types, colours and links; siblings ordered; in strict
+mode no red node with a red sibling-child), whatever the tree's shape — the visited-list walk is
+shown to consume exactly one iteration per node (`dfs_tree`) -/
+theorem C02_validate_accepts (m : Raw.Mode) (T : Array DirEntry) (top : Tree) (d0 : DirEntry)
+    (h0 : T[0]? = some d0) (hty : d0.objType = Gen.OBJ_TYPE_ROOT) (hl : d0.left = NOSTREAM) (hr : d0.right = NOSTREAM)
+    (hc : d0.child = lnk top) (hlen : d0.streamLen % Gen.MINI_SECTOR_LEN = 0)
+    (ok : DfsOk T m.isStrict top) (nd : top.slots.Nodup) : validateDir m T = .ok () :=
+  validateDir_accepts m T top d0 h0 hty hl hr hc hlen ok nd
+
+/-- **the rendered image reopens, and `open` returns the writer's tables** — for every state `g` the
+store machine reaches and every directory tree `s` of the directory model rendered beside it, in
+both modes: header, DIFAT chain, FAT (load, normalise, validate), directory chain,
+`Directory::validate`, MiniFAT chain and its pointee check all run through, and the reader's state
+is the writer's (`rawOf`).  Hypotheses, besides the size bounds: the tree is well-formed (`Tree.WF`,
+proved for every API history in C01; `RBAll` in strict mode), its slots are distinct slots of the
+directory chain, every row is encodable (`SlotsWf`), and `MiniFit` (see `Phys/OpenBack.lean`: the
+in-memory MiniFAT is trimmed, fits its chain and the mini stream — not yet carried through the
+operations, compared by the lock-step after every call). -/
+theorem C02_reopens (v4 : Bool) (ops : List GOp) (s : Dir.State) (m : Raw.Mode) :
+    let g := grun { p := Phys.create v4, L := fun _ => 0 } ops
+    g.p.fat.size ≤ MAXREG → MiniBounded { p := Phys.create v4, L := fun _ => 0 } ops →
+    SlotsWf g.p (slotsOf g.p (dirtable s)) → MiniFit g.p →
+    s.top.WF → (m.isStrict = true → RBAll s.top) →
+    (0 :: s.top.slots).Nodup → (∀ x ∈ 0 :: s.top.slots, x < dirCap g.p) → dirCap g.p ≤ NOSTREAM →
+    g.p.rootLen % Gen.MINI_SECTOR_LEN = 0 →
+    openImg m (render g.p (dirtable s)) = .ok (rawOf g.p (dirtable s)) := by
+  intro g hfs hm sw mf wf rb nd hcap hcapN hmod
+  have gs := gs_grun ops { p := Phys.create v4, L := fun _ => 0 }
+  have hb : g.p.fat.size ≤ MAXREG + 1 := Nat.le_succ_of_le hfs
+  have j := noLeak_reachable v4 ops hb
+  have jm := noLeakMini_reachable v4 ops hm
+  have mk := (mk_grun_reachable v4 ops hb).1
+  have hn : g.p.numSectors ≤ MAXREG := by rw [← j.inv.fat.size]; exact hfs
+  exact open_reads_back_dir s j jm mk (gs.ss (ss_create v4)) (gs.cap (cap_create v4)) sw hn mf m wf rb nd hcap hcapN hmod
+
+/-- the premises of `C02_reopens` are met — **a fresh file reopens**: for the state `create` leaves (root
+entry only, no MiniFAT) every hypothesis holds, so both open modes accept the rendered image of a
+new file of either version and return its tables -/
+theorem C02_fresh_file_reopens (v4 : Bool) (m : Raw.Mode) :
+    openImg m (render (Phys.create v4) (dirtable Dir.State.create)) =
+      .ok (rawOf (Phys.create v4) (dirtable Dir.State.create)) := by
+  have hdc : chainOrEmpty (Phys.create v4) (Phys.create v4).dirStart = [1] := by cases v4 <;> decide
+  have hcapv : dirCap (Phys.create v4) = (Phys.create v4).S / Gen.DIR_ENTRY_LEN := by
+    unfold dirCap; rw [hdc]; simp
+  have hS : 4 ≤ (Phys.create v4).S / Gen.DIR_ENTRY_LEN ∧ (Phys.create v4).S / Gen.DIR_ENTRY_LEN ≤ 32 := by
+    cases v4 <;> decide
+  refine C02_reopens v4 [] Dir.State.create m (by cases v4 <;> decide) trivial ?_ ?_ trivial (fun _ => trivial)
+    (by simp [Dir.State.create, Tree.slots]) ?_ ?_ rfl
+  · -- the only row is the root's
+    intro i r hi
+    have hrows : dirtable Dir.State.create = [rootRowOf Dir.State.create] := rfl
+    unfold slotsOf at hi
+    simp only [grun, hrows, List.foldl_cons, List.foldl_nil] at hi
+    rw [Array.getElem?_setIfInBounds] at hi
+    split at hi
+    · rename_i h0
+      split at hi
+      · cases hi
+        have hascii : ∀ c ∈ (rootRowOf Dir.State.create).name, c < 128 := by decide
+        have hu : Names.utf16 (rootRowOf Dir.State.create).name = (rootRowOf Dir.State.create).name :=
+          Names.utf16_ascii _ hascii
+        refine ⟨by decide, by decide, ?_, Or.inr (Or.inr rfl), fun _ => rfl, fun h => absurd rfl h,
+          Or.inl rfl, Or.inl rfl, Or.inl rfl, (fun h => by cases h), rfl, (fun h => by cases h), by decide, by decide, by decide,
+          (by cases v4 <;> decide), ?_, (fun h => by cases h)⟩
+        · rw [hu]; exact decodeUtf16_low _ (fun u hu' => by have := hascii u hu'; omega)
+        · cases v4 <;> decide
+      · cases hi
+    · rw [Array.getElem?_replicate] at hi
+      split at hi <;> cases hi
+  · exact ⟨(by intro v h; cases h), Nat.zero_le _, (fun i hi => absurd hi (Nat.not_lt_zero _)), Nat.zero_le _⟩
+  · intro x hx
+    simp only [Dir.State.create, Tree.slots, List.mem_cons, List.not_mem_nil, or_false] at hx
+    subst hx
+    show 0 < dirCap (Phys.create v4)
+    rw [hcapv]; omega
+  · show dirCap (Phys.create v4) ≤ NOSTREAM
+    rw [hcapv]
+    have : (32 : Nat) ≤ NOSTREAM := by decide
+    omega
 
 /-- the premises are met: in an example history (regular and mini streams, a removal) the FAT is within range, and an empty row list is well-formed -/
 def exOps : List GOp :=
